@@ -803,6 +803,13 @@ func cfgEngine(cfg *simrt.Config, tier string) {
 	cfg.MaxSteps = 300_000
 }
 
+// cfgEngineSkip additionally lets the clock jump while tasks are runnable
+// (everything stalls while the restart delay passes).
+func cfgEngineSkip(cfg *simrt.Config, tier string) {
+	cfgEngine(cfg, tier)
+	cfg.TimeSkip = true
+}
+
 func init() {
 	base := "one real Engine; 1-3 scripted actors (optional children, middleware chains 0-3, inbox sizes {1,2,4,1024}, batch knob {1,2,3,5,4096}, MaxRestarts 0-3, RestartDelay {0,1ms,500ms} on the simulated clock); 1-3 concurrent client tasks sending uniquely numbered messages with senders {nil,2 PIDs} from before the actor is spawned; event-stream monitor; "
 	core.Register(&core.Profile{Property: "C04", Name: "lifecycle", Weight: 4, Cfg: cfgEngine,
@@ -813,7 +820,7 @@ func init() {
 		Run: runLifecycle(lcParams{focus: "C04", stops: true, crashes: true, lifeCrashes: true, children: true, exceed: true}),
 		Doc: base + "as 'lifecycle', with one actor driven beyond its restart budget (the incarnation that ends by exhausting the budget must also get exactly one final Stopped)",
 		Faults: []string{"actor-crash-in-Initialized", "actor-crash-in-Started", "actor-crash-in-Receive", "restart-budget-exceeded", "concurrent stop/poison"}})
-	core.Register(&core.Profile{Property: "C05", Name: "restart", Weight: 4, Cfg: cfgEngine,
+	core.Register(&core.Profile{Property: "C05", Name: "restart", Weight: 4, Cfg: cfgEngineSkip,
 		Run: runLifecycle(lcParams{focus: "C05", crashes: true, lifeCrashes: true}),
 		Doc: base + "crashes within the restart budget at every batch position (batch knob) and in Initialized/Started, senders continuing during the restart delay; oracle: no un-recovered panic, Stopped to the failed incarnation, one ActorRestartedEvent per crash with Restarts=1..n, fresh Initialized+Started, every accepted message delivered exactly once in per-sender order, queued-before-crash ahead of sent-after-crash, crashing message not redelivered",
 		Faults: []string{"actor-crash-in-Initialized", "actor-crash-in-Started", "actor-crash-in-Receive"}})
